@@ -4,6 +4,9 @@ package qframe
 // accept up to 255 distinct values.
 
 import (
+	"strings"
+
+	"github.com/tobgu/qframe/config/csv"
 	"github.com/tobgu/qframe/config/newqf"
 	"github.com/tobgu/qframe/internal/vx"
 )
@@ -206,5 +209,63 @@ func VX_C17_derived() {
 	vx.Check(v.ItemAt(len(data)-1) == nil, "null stays null")
 	r := f.Filter(Filter{Column: "e", Comparator: "isnull"})
 	vx.Check(r.Len() == 1, "only the null cell is null")
+	vx.Reach("end")
+}
+
+// VX_C17_csv_derived: a derived enum read from CSV takes 255 distinct values and fails cleanly on the 256th;
+// D concrete distinct values, then one cell with a symbolic value index (a duplicate or a fresh value).
+func VX_C17_csv_derived() {
+	D := vx.ParamInt("D")
+	var sb strings.Builder
+	sb.WriteString("e\n")
+	for k := 0; k < D; k++ {
+		sb.WriteString(c17name(k) + "\n")
+	}
+	k := c17idx(256)
+	doc := sb.String() + c17symName(k) + "\n"
+	f := ReadCSV(strings.NewReader(doc), csv.Types(map[string]string{"e": "enum"}))
+	fresh := k >= D
+	ok := D+vx.B2I(fresh) <= 255
+	vx.Check((f.Err == nil) == ok, "derived enum from CSV accepted iff at most 255 distinct values")
+	if f.Err != nil {
+		vx.Check(f.Len() == -1, "failed frame exposes no rows")
+		vx.Reach("end-toomany")
+		return
+	}
+	v := f.MustEnumView("e")
+	for _, r := range []int{0, D - 1} {
+		p := v.ItemAt(r)
+		vx.Check(p != nil && *p == c17name(r), "no value reported as another or as null")
+	}
+	p := v.ItemAt(D)
+	vx.Check(p != nil && *p == c17symName(k), "the last cell keeps its value")
+	vx.Check(f.Filter(Filter{Column: "e", Comparator: "isnull"}).Len() == 0, "no value is null")
+	vx.Reach("end")
+}
+
+// VX_C17_csv_declared: the declared value set stays in force for every read it is given to.
+func VX_C17_csv_declared() {
+	vals := map[string][]string{"e": {"c", "a", "b"}}
+	opt := csv.EnumValues(vals)
+	typ := csv.Types(map[string]string{"e": "enum"})
+	c := vx.Str(1)
+	vx.Assume(vx.And(vx.And(c[0] != ',', c[0] != '"'), vx.And(c[0] != '\n', c[0] != '\r')))
+	declared := vx.Or(c == "a", vx.Or(c == "b", c == "c"))
+	for round := 0; round < 3; round++ {
+		var f QFrame
+		if round < 2 {
+			f = ReadCSV(strings.NewReader("e\nb\n"+c+"\nc\n"), typ, opt) // the same option value again
+		} else {
+			f = ReadCSV(strings.NewReader("e\nb\n"+c+"\nc\n"), typ, csv.EnumValues(vals)) // the same map again
+		}
+		vx.Check((f.Err == nil) == declared, "construction fails iff a cell is not a declared value (every read)")
+		if f.Err == nil {
+			// declared order c < a < b decides comparisons, not the order of appearance
+			r := f.Filter(Filter{Column: "e", Comparator: "<", Arg: "b"})
+			vx.Check(r.Err == nil && r.Len() == 1+vx.B2I(c != "b"), "comparison follows the declared order (every read)")
+			vx.Check(f.Filter(Filter{Column: "e", Comparator: "=", Arg: "zz"}).Err != nil, "an undeclared constant is rejected (every read)")
+		}
+	}
+	vx.Check(len(vals) == 1 && len(vals["e"]) == 3, "the caller's map is not modified")
 	vx.Reach("end")
 }
